@@ -24,17 +24,32 @@ def nested(depth):
     return s
 
 
+# files that begin with a comment of exactly the same length: an ordinary header in a long file without any filter, and a
+# filter comment (inline / global) in a short file — whatever a worker remembers about the comments of one file must not
+# carry over to the next file it lints
+_F1 = "-- selene: allow(unused_variable)"
+_F2 = "--# selene: allow(unused_variable)"
+EXTRA_KINDS = {
+    "hdr1": "-- " + "h" * (len(_F1) - 3) + "\n" + "print(1)\n" * 400,
+    "hdr2": "-- " + "g" * (len(_F2) - 3) + "\n" + "print(2)\n" * 400,
+    "flt1": _F1 + "\nlocal hidden_f = 1\n",
+    "flt2": _F2 + "\nlocal hidden_g = 1\nlocal hidden_h = 2\n",
+    "flt1b": _F1 + "\nlocal hidden_i = 1\nprint(undefined_after_filter)\n",
+}
+
+
 def make_set(ctx, name, rng, n_files):
     d = os.path.join(ctx.workdir, name)
     os.makedirs(d, exist_ok=True)
     files = []
-    kinds = ["clean", "warn", "warn2", "err", "err2", "mixed", "parse", "parse2", "empty", "bigwarn", "BIG", "missing", "multiline", "crlf", "nest2", "nest3", "nest4"]
+    kinds = ["clean", "warn", "warn2", "err", "err2", "mixed", "parse", "parse2", "empty", "bigwarn", "BIG", "missing", "multiline", "crlf", "nest2", "nest3", "nest4",
+             "hdr1", "hdr2", "flt1", "flt2", "flt1b", "hdr1", "flt1", "filtered", "comment"]
     for i in range(n_files):
         k = rng.choice(kinds)
         fname = f"f{i:03d}_{k}.lua"
         if k != "missing":
             with open(os.path.join(d, fname), "w", newline="") as fh:
-                fh.write(BIG if k == "BIG" else nested(int(k[4:])) if k.startswith("nest") else cli.FILE_KINDS[k])
+                fh.write(BIG if k == "BIG" else nested(int(k[4:])) if k.startswith("nest") else EXTRA_KINDS[k] if k in EXTRA_KINDS else cli.FILE_KINDS[k])
         files.append(fname)
     cli.write_config(d, name="cfg.toml")
     return d, files
